@@ -277,25 +277,25 @@ func mutateStmt(rt *rapid.T, orig *lib.Stmt) (*lib.Stmt, string) {
 	return st, f.Name + "@" + s.parent
 }
 
-func genC14Base(rt *rapid.T) (*lib.Stmt, []lib.Pair) {
+func genC14Base(rt *rapid.T, exotic bool) (*lib.Stmt, []lib.Pair) {
 	kind := lib.GenKind(rt)
 	pairs := lib.GenStore(rt, kind, rapid.SampledFrom([]int{0, 2, 5, 9}).Draw(rt, "n"))
 	switch rapid.IntRange(0, 9).Draw(rt, "stmtKind") {
 	case 0:
-		return lib.GenPut(rt, kind, pairs, false), pairs
+		return lib.GenPut(rt, kind, pairs, exotic), pairs
 	case 1:
-		return lib.GenRemove(rt, kind, pairs, false), pairs
+		return lib.GenRemove(rt, kind, pairs, exotic), pairs
 	case 2:
-		return lib.GenDelete(rt, kind, pairs, false), pairs
+		return lib.GenDelete(rt, kind, pairs, exotic), pairs
 	}
-	return lib.GenSelect(rt, kind, pairs, lib.SelOpts{Aliases: true, Aggregate: 1, Order: true, Limit: true}), pairs
+	return lib.GenSelect(rt, kind, pairs, lib.SelOpts{Aliases: true, Aggregate: 1, Order: true, Limit: true, Exotic: exotic}), pairs
 }
 
 // TestC14WellTyped: statements of the typed grammar must be accepted and
 // must not fail with operand-type errors.
 func TestC14WellTyped(t *testing.T) {
 	rapid.Check(t, func(rt *rapid.T) {
-		st, pairs := genC14Base(rt)
+		st, pairs := genC14Base(rt, false)
 		c := &c14Case{Stmt: st, Pairs: pairs}
 		lib.Journal("C14", "c14", c)
 		msg, nt, labels := checkC14(c)
@@ -311,7 +311,9 @@ func TestC14WellTyped(t *testing.T) {
 // with zero storage calls.
 func TestC14Mutants(t *testing.T) {
 	rapid.Check(t, func(rt *rapid.T) {
-		st, pairs := genC14Base(rt)
+		// half of the hosts use the wider language (JSON access, substr,
+		// distances, ...): a fault must be found below those too
+		st, pairs := genC14Base(rt, rapid.Bool().Draw(rt, "exoticHost"))
 		mut, fault := mutateStmt(rt, st)
 		if mut == nil {
 			lib.Stats.Label("no-mutable-position")
@@ -374,6 +376,27 @@ func TestC14Positions(t *testing.T) {
 		skel{"between-upper", func(h *lib.Node) *lib.Stmt { return sel(nil, lib.Between(lib.Value(), lib.Str("a"), h)) }, lib.TyText},
 		skel{"index-base-argument", func(h *lib.Node) *lib.Stmt {
 			return sel(nil, lib.Bin("=", lib.Index(lib.Call("split", h, lib.Str(",")), 0), lib.Str("a")))
+		}, lib.TyText},
+		skel{"json-base-argument", func(h *lib.Node) *lib.Stmt {
+			return sel(nil, lib.Bin("=", lib.Field(lib.Call("json", h), "a"), lib.Str("x")))
+		}, lib.TyText},
+		skel{"json-cascade-base-argument", func(h *lib.Node) *lib.Stmt {
+			return sel(nil, lib.Bin("=", lib.Field(lib.Field(lib.Call("json", h), "a"), "b"), lib.Str("x")))
+		}, lib.TyText},
+		skel{"json-cascade-index-base-argument", func(h *lib.Node) *lib.Stmt {
+			return sel(nil, lib.Bin("=", lib.Index(lib.Field(lib.Field(lib.Call("json", lib.Call("upper", h)), "o"), "arr"), 1), lib.Str("x")))
+		}, lib.TyText},
+		skel{"json-cascade-select-field", func(h *lib.Node) *lib.Stmt {
+			return sel([]lib.SelField{{E: lib.Key()}, {E: lib.Field(lib.Field(lib.Call("json", h), "a"), "b")}}, ok())
+		}, lib.TyText},
+		skel{"named-field-under-json-cascade", func(h *lib.Node) *lib.Stmt {
+			return sel([]lib.SelField{{E: h, Alias: "t1"}}, lib.Bin("=", lib.Field(lib.Field(lib.Call("json", lib.Ref("t1", lib.TyText)), "a"), "b"), lib.Str("x")))
+		}, lib.TyText},
+		skel{"put-value-json-cascade", func(h *lib.Node) *lib.Stmt {
+			return &lib.Stmt{Kind: "put", Pairs: [][2]*lib.Node{{lib.Str("k"), lib.Field(lib.Field(lib.Call("json", h), "a"), "b")}}}
+		}, lib.TyText},
+		skel{"remove-key-json-cascade", func(h *lib.Node) *lib.Stmt {
+			return &lib.Stmt{Kind: "remove", Keys: []*lib.Node{lib.Field(lib.Field(lib.Call("json", h), "a"), "b")}}
 		}, lib.TyText},
 		skel{"select-field", func(h *lib.Node) *lib.Stmt { return sel([]lib.SelField{{E: lib.Key()}, {E: h}}, ok()) }, lib.TyText},
 		skel{"select-field-bool", func(h *lib.Node) *lib.Stmt { return sel([]lib.SelField{{E: h, Alias: "b1"}}, ok()) }, lib.TyBool},
